@@ -41,6 +41,10 @@ type endpoint struct {
 	drive func(b []byte, step stepFn) error
 	// raw: include the raw framing-level inputs (class (a))
 	noRaw bool
+	// early inputs run first: inputs known to crash the unchanged tree in a goroutine of
+	// the service (the child process dies and is restarted with the case skipped, so the
+	// earlier they come the less is re-run)
+	early []in
 	// late inputs run after the mutations (inputs known to hang the unchanged tree: a hung
 	// call keeps spinning until the process ends)
 	late []in
@@ -68,7 +72,7 @@ func hexCap(b []byte) string {
 func runEndpoint(t *testing.T, run *obs.Run, ep endpoint, nMut int) {
 	t.Helper()
 	gen := run.RandFor("gen/" + ep.name)
-	var cases []in
+	cases := append([]in(nil), ep.early...)
 	if !ep.noRaw {
 		for _, r := range pbench.RawHostile(gen) {
 			cases = append(cases, in{r.Name, r.B})
@@ -87,9 +91,9 @@ func runEndpoint(t *testing.T, run *obs.Run, ep endpoint, nMut int) {
 	t0 := time.Now()
 	defer func() { run.Stat("wall_ms/"+ep.name, int64(time.Since(t0)/time.Millisecond)) }()
 	for i, ic := range cases {
-		if hangs >= 2 {
+		if hangs >= 1 {
 			// every hung call keeps a core spinning until the process ends
-			run.Stat("cases_skipped_after_two_hangs", 1)
+			run.Stat("cases_skipped_after_a_hang", 1)
 			continue
 		}
 		c := run.Begin(fmt.Sprintf("%s/%d", ep.name, i), map[string]interface{}{
@@ -181,7 +185,7 @@ func runEndpoint(t *testing.T, run *obs.Run, ep endpoint, nMut int) {
 
 // hangBound is the liveness bound of one case (not an oracle of timing: every finite
 // case of this bench takes milliseconds to a few seconds).
-const hangBound = 20 * time.Second
+const hangBound = 15 * time.Second
 
 // repoStacks lists the running goroutines that are inside repository code (for the
 // witness of a hang).
